@@ -164,8 +164,13 @@ def filter_tolerance(ctx) -> None:
                     n += 1
                     v = dict(e.kw).get("tol", e.args.get("tol"))
                     fw = fw and v is not None and strip_typed(v) == tol
-        ctx.ob("ONCE-tolerance", f"{K.name}._is_evaluation_time forwards the tolerance", f.loc(), fw and n >= 2,
-               "both config predicates are called with tol=tolerance" if fw and n >= 2 else
+        # a membership test written by hand instead of a config predicate must compare with the same tolerance
+        hand = any(p.status == "return" and p.retval is not None and tol in [strip_typed(x) for x in walk(p.retval)
+                                                                           if strip_typed(x)[0] == "param"]
+                   for p in it.run(f)) if n == 1 else False
+        enough = n >= 2 or (n == 1 and hand)
+        ctx.ob("ONCE-tolerance", f"{K.name}._is_evaluation_time forwards the tolerance", f.loc(), fw and enough,
+               "both membership tests use tol=tolerance" if fw and enough else
                "the config predicates are not called with the function's tolerance (their own default is Pulser's 0.5/duration)")
         # call sites
         for m in K.methods.values():
